@@ -5,6 +5,7 @@
 //! would spawn is handed to a [`Sim`] instead, which keeps the net-reporter guard until the
 //! harness lets the run finish. The scheduling code (`schedule_run`, `try_run`, `want_update`,
 //! the reporter lock, the early returns of `run`, the done channel) is the real one.
+#![allow(missing_docs, unreachable_pub, dead_code)]
 use std::sync::{Arc, Mutex};
 
 use iroh_relay::{
